@@ -62,7 +62,7 @@ def ref_case(task):
         return _ref_case(task)
     except Exception:      # noqa: BLE001
         import traceback
-        return {'task': list(task), 'ratio': [float('nan'), 0.0], 'err': float('inf')}
+        return {'task': list(task), 'ratio': [float('nan'), 0.0], 'err': float('inf'), 'pole': float('inf')}
 
 
 def _ref_case(task):
@@ -73,9 +73,24 @@ def _ref_case(task):
     b = H.sYlm(s, l, m, T, P)
     k = int(np.argmax(np.abs(b)))
     ratio = a.ravel()[k] / b.ravel()[k]
+    # the poles themselves (theta = 0 and pi exactly, as on a grid built with
+    # linspace(0, pi, n)): finite, continuous, and of the closed-form size
+    # sqrt((2l+1)/4pi) for m = -s (north) / m = s (south), zero otherwise
+    ph = np.array([0.0, 0.7, 2.1, 4.0])
+    pole = 0.0
+    with np.errstate(all='ignore'):
+        for th0, near, mm in ((0.0, 1e-7, -s), (np.pi, np.pi - 1e-7, s)):
+            y0 = np.asarray(maths.sYlm(s, l, m, np.full(4, th0), ph))
+            y1 = np.asarray(maths.sYlm(s, l, m, np.full(4, near), ph))
+            size = np.sqrt((2 * l + 1) / (4 * np.pi)) if m == mm else 0.0
+            if not np.all(np.isfinite(y0)):
+                pole = float('inf')
+            else:
+                pole = max(pole, float(np.abs(y0 - y1).max()),
+                           float(np.abs(np.abs(y0) - size).max()))
     return {'task': [s, l, m], 'ratio': [float(ratio.real),
                                          float(ratio.imag)],
-            'err': float(np.abs(a - ratio * b).max())}
+            'err': float(np.abs(a - ratio * b).max()), 'pole': pole}
 
 
 def synth_case(task):
@@ -292,6 +307,11 @@ def main(tier):
                           f"{want} from the convention fixed at (0,1,1)), "
                           f"residual {r['err']:.2e}",
                           {'s': s, 'l': l, 'm': m})
+        if not r.get('pole', float('inf')) <= 1e-5:
+            run.violation(f"C20:sYlm-at-poles:s={s}",
+                          f"sYlm({s},{l},{m}) at theta = 0 or pi exactly: "
+                          f"not finite / discontinuous / wrong size "
+                          f"({r.get('pole')})", {'s': s, 'l': l, 'm': m})
     # (c) analysis o synthesis = identity on every unit coefficient set
     for r in runner.pmap(synth_case, [(s, 6) for s in SPINS], workers=5):
         total += r['sets']
